@@ -241,4 +241,298 @@ theorem mulChunked_exact (M : Nat) (hM : 1 ≤ M) (u v : List Nat) (hu : Limbs u
   rw [if_neg (by omega)]
   exact chunkLoop_exact M hM u v hu hv hv1 u.length _ a (by omega) (by omega)
 
+/-! ### (B) the slide loop -/
+
+/-- mul.c:235-248 / :263-273: the window and the pending carry together grow by exactly the product added,
+    whatever the relative sizes (all three branches), as long as `t += carry` does not wrap. -/
+theorem accum_spec (w ws : List Nat) (t : Nat) (hw : Limbs w) (hws : Limbs ws) (ht : t + 1 < B) :
+    val (accum w ws t).1 + B ^ (accum w ws t).1.length * (accum w ws t).2 = val w + B ^ w.length * t + val ws ∧
+    (accum w ws t).1.length = max w.length ws.length ∧ Limbs (accum w ws t).1 := by
+  unfold accum
+  simp only []
+  split_ifs with c1 c2
+  · -- l < m
+    have htl : (ws.take w.length).length = w.length := by simp; omega
+    have hdl : (ws.drop w.length).length = ws.length - w.length := by simp
+    obtain ⟨av, ac, aL, an⟩ := add_n_val w (ws.take w.length) hw (Limbs_take hws _) htl.symm
+    have ht1 : (t + (add_n w (ws.take w.length)).2) % B = t + (add_n w (ws.take w.length)).2 :=
+      Nat.mod_eq_of_lt (by omega)
+    rw [ht1]
+    obtain ⟨iv, ic, iL, iN⟩ := add_1_val (ws.drop w.length) (t + (add_n w (ws.take w.length)).2)
+      (Limbs_drop hws _) (by rw [hdl]; omega) (by omega)
+    have hsplit := val_take_drop ws w.length c1
+    rw [hdl] at iv iN
+    refine ⟨?_, by simp only [List.length_append, an, iN]; omega, Limbs_append.mpr ⟨aL, iL⟩⟩
+    simp only [List.length_append, an, iN, val_append, pow_add]
+    rw [hsplit]
+    generalize (add_1 (ws.drop w.length) (t + (add_n w (ws.take w.length)).2)) = h at *
+    generalize (add_n w (ws.take w.length)) = a at *
+    linear_combination av + B ^ w.length * iv
+  · -- l = m
+    have hlm : w.length = ws.length := by omega
+    have htk : ws.take w.length = ws := by rw [hlm]; exact List.take_length
+    rw [htk]
+    obtain ⟨av, ac, aL, an⟩ := add_n_val w ws hw hws hlm
+    have ht1 : (t + (add_n w ws).2) % B = t + (add_n w ws).2 := Nat.mod_eq_of_lt (by omega)
+    rw [ht1]
+    refine ⟨?_, by rw [an]; omega, aL⟩
+    rw [an]
+    linear_combination av
+  · -- l > m
+    have htl : (w.take ws.length).length = ws.length := by simp; omega
+    have hdl : (w.drop ws.length).length = w.length - ws.length := by simp
+    obtain ⟨av, ac, aL, an⟩ := add_n_val (w.take ws.length) ws (Limbs_take hw _) hws htl
+    obtain ⟨iv, ic, iL, iN⟩ := add_1_val (w.drop ws.length) (add_n (w.take ws.length) ws).2
+      (Limbs_drop hw _) (by rw [hdl]; omega) (by have := B_eq; omega)
+    have ht1 : (t + (add_1 (w.drop ws.length) (add_n (w.take ws.length) ws).2).2) % B
+        = t + (add_1 (w.drop ws.length) (add_n (w.take ws.length) ws).2).2 := Nat.mod_eq_of_lt (by omega)
+    rw [ht1]
+    have hsplit := val_take_drop w ws.length (by omega)
+    rw [htl] at av an
+    rw [hdl] at iv iN
+    have hpow : B ^ w.length = B ^ ws.length * B ^ (w.length - ws.length) := by
+      rw [← pow_add]; congr 1; omega
+    refine ⟨?_, by simp only [List.length_append, an, iN]; omega, Limbs_append.mpr ⟨aL, iL⟩⟩
+    simp only [List.length_append, an, iN, val_append, pow_add]
+    rw [hsplit, hpow]
+    generalize (add_1 (w.drop ws.length) (add_n (w.take ws.length) ws).2) = h at *
+    generalize (add_n (w.take ws.length) ws) = a at *
+    linear_combination av + B ^ ws.length * iv
+
+/-- arithmetic of one slide step: the new overhang X' stays below B^(l-vn) + B^vn  (b = B^vn, q = B^(l-vn)) -/
+theorem slide_small {b q X a v lo X' : Nat} (hb : 0 < b) (ha : a < b) (hv : v < b) (hX : X < b * q + b)
+    (h : X + a * v = lo + b * X') : X' < q + b := by
+  obtain ⟨c, rfl⟩ : ∃ c, b = c + 1 := ⟨b - 1, by omega⟩
+  have h1 : a * v ≤ c * c := Nat.mul_le_mul (by omega) (by omega)
+  apply Nat.lt_of_mul_lt_mul_left (a := c + 1)
+  nlinarith
+
+/-- … and what is still to be added keeps fitting the limbs that are left -/
+theorem slide_fits {b Q X a v u' lo X' : Nat} (h : X + a * v = lo + b * X')
+    (hf : X + (a + b * u') * v < b * Q) : X' + u' * v < Q := by
+  apply Nat.lt_of_mul_lt_mul_left (a := b)
+  nlinarith
+
+/-- what the slide loop assumes of its callee mpn_mul_n: on equal-length operands of kt ≤ n ≤ N limbs it returns the
+    2n limbs of the exact product -/
+def MulNExact (kt N : Nat) (mulN : List Nat → List Nat → Option (List Nat)) : Prop :=
+  ∀ a b : List Nat, Limbs a → Limbs b → a.length = b.length → kt ≤ a.length → a.length ≤ N →
+    ∃ r, mulN a b = some r ∧ val r = val a * val b ∧ Limbs r ∧ r.length = 2 * a.length
+
+/-- Loop invariant of mul.c:232-258 (state: window `w` of l limbs, pending carry `t`, current up/vp):
+    vn ≤ l ≤ un; the overhang of the products added so far, X = w + t·B^l, is below B^l + B^vn (so t ≤ 1: `t += carry`
+    never wraps and is never lost); what is still to come fits the un + vn limbs that are left. -/
+structure SlideInv (N : Nat) (w : List Nat) (t : Nat) (up vp : List Nat) : Prop where
+  hw : Limbs w
+  hu : Limbs up
+  hv : Limbs vp
+  vl : vp.length ≤ w.length
+  lu : w.length ≤ up.length
+  vN : vp.length ≤ N
+  zl : vp.length = 0 → w.length = up.length
+  small : val w + B ^ w.length * t < B ^ w.length + B ^ vp.length
+  fits : val w + B ^ w.length * t + val up * val vp < B ^ (up.length + vp.length)
+
+theorem SlideInv.t_le {N : Nat} {w : List Nat} {t : Nat} {up vp : List Nat} (h : SlideInv N w t up vp) : t ≤ 1 := by
+  have h1 : B ^ vp.length ≤ B ^ w.length := Nat.pow_le_pow_right B_pos h.vl
+  have h2 := h.small
+  by_contra hc
+  have : 2 ≤ t := by omega
+  nlinarith [Bpow_pos w.length]
+
+theorem slideLoop_exact (kt N : Nat) (hkt : 1 ≤ kt) (mulN : List Nat → List Nat → Option (List Nat))
+    (hmul : MulNExact kt N mulN) :
+    ∀ (fuel : Nat) (done w : List Nat) (t : Nat) (up vp : List Nat), Limbs done → SlideInv N w t up vp →
+      up.length + vp.length < fuel →
+      ∃ r, slideLoop kt mulN fuel done w t up vp = some r ∧
+        val r = val done + B ^ done.length * (val w + B ^ w.length * t + val up * val vp) ∧
+        Limbs r ∧ r.length = done.length + up.length + vp.length
+  | 0, _, _, _, _, _, _, _, hf => by omega
+  | fuel + 1, done, w, t, up, vp, hd, hs, hf => by
+    have ht := hs.t_le
+    obtain ⟨hw, hu, hv, vl, lu, vN, zl, small, fits⟩ := hs
+    have hB := B_eq
+    rw [slideLoop]
+    simp only []
+    by_cases c1 : vp.length ≥ kt
+    · rw [if_pos c1]
+      have hvn1 : 1 ≤ vp.length := by omega
+      have htl : (up.take vp.length).length = vp.length := by simp; omega
+      obtain ⟨ws, e1, e2, e3, e4⟩ := hmul (up.take vp.length) vp (Limbs_take hu _) hv htl (by omega) (by omega)
+      rw [htl] at e4
+      obtain ⟨av, an, aL⟩ := accum_spec w ws t hw e3 (by omega)
+      rw [e4] at an
+      simp only [e1]
+      generalize accum w ws t = r at *
+      have hsplitR := val_take_drop r.1 vp.length (by omega)
+      have hsplitU := val_take_drop up vp.length (by omega)
+      have hlo : (r.1.take vp.length).length = vp.length := by simp; omega
+      have hwl' : (r.1.drop vp.length).length = max w.length (2 * vp.length) - vp.length := by simp [an]
+      have hul' : (up.drop vp.length).length = up.length - vp.length := by simp
+      have hpowL : B ^ (max w.length (2 * vp.length))
+          = B ^ vp.length * B ^ (max w.length (2 * vp.length) - vp.length) := by
+        rw [← pow_add]; congr 1; omega
+      have hpowl : B ^ w.length = B ^ vp.length * B ^ (w.length - vp.length) := by
+        rw [← pow_add]; congr 1; omega
+      have hpowu : B ^ (up.length + vp.length) = B ^ vp.length * B ^ up.length := by
+        rw [← pow_add]; congr 1; omega
+      have step : (val w + B ^ w.length * t) + val (up.take vp.length) * val vp
+          = val (r.1.take vp.length) + B ^ vp.length *
+              (val (r.1.drop vp.length) + B ^ (max w.length (2 * vp.length) - vp.length) * r.2) := by
+        rw [an, hpowL, hsplitR, e2] at av
+        have av' := av.symm
+        linear_combination av'
+      have ha : val (up.take vp.length) < B ^ vp.length := by
+        have := val_lt _ (Limbs_take hu vp.length); rwa [htl] at this
+      have hX' := slide_small (Bpow_pos vp.length) ha (val_lt vp hv)
+        (by rw [← hpowl]; exact small) step
+      have hfit' := slide_fits (Q := B ^ up.length) (u' := val (up.drop vp.length)) step
+        (by rw [← hsplitU, ← hpowu]; exact fits)
+      have hdone' : Limbs (done ++ r.1.take vp.length) := Limbs_append.mpr ⟨hd, Limbs_take aL _⟩
+      -- value bookkeeping shared by both continuations
+      have hvalue : ∀ res : Nat,
+          res = val (done ++ r.1.take vp.length) + B ^ (done ++ r.1.take vp.length).length *
+            (val (r.1.drop vp.length) + B ^ (max w.length (2 * vp.length) - vp.length) * r.2
+              + val (up.drop vp.length) * val vp) →
+          res = val done + B ^ done.length * (val w + B ^ w.length * t + val up * val vp) := by
+        intro res hres
+        rw [hres, val_append, List.length_append, hlo, pow_add, hsplitU]
+        linear_combination (B ^ done.length) * step.symm
+      by_cases c2 : (up.drop vp.length).length < vp.length
+      · rw [if_pos c2]
+        rw [hul'] at c2
+        have inv' : SlideInv N (r.1.drop vp.length) r.2 vp (up.drop vp.length) := by
+          refine ⟨Limbs_drop aL _, hv, Limbs_drop hu _, by omega, by omega, by omega, by omega, ?_, ?_⟩
+          · rw [hwl', hul']
+            have m1 : B ^ (w.length - vp.length) ≤ B ^ (up.length - vp.length) :=
+              Nat.pow_le_pow_right B_pos (by omega)
+            have m2 : max w.length (2 * vp.length) - vp.length = vp.length := by omega
+            rw [m2] at hX' ⊢
+            omega
+          · rw [hwl', hul']
+            have m3 : vp.length + (up.length - vp.length) = up.length := by omega
+            rw [m3, Nat.mul_comm (val vp)]
+            exact hfit'
+        obtain ⟨res, f1, f2, f3, f4⟩ := slideLoop_exact kt N hkt mulN hmul fuel _ _ _ _ _ hdone' inv' (by omega)
+        refine ⟨res, f1, hvalue _ ?_, f3, ?_⟩
+        · rw [f2, hwl', Nat.mul_comm (val vp)]
+        · rw [f4, List.length_append, hlo, hul']; omega
+      · rw [if_neg c2]
+        rw [hul'] at c2
+        have inv' : SlideInv N (r.1.drop vp.length) r.2 (up.drop vp.length) vp := by
+          refine ⟨Limbs_drop aL _, Limbs_drop hu _, hv, by omega, by omega, by omega, by omega, ?_, ?_⟩
+          · rw [hwl']
+            have m1 : B ^ (w.length - vp.length) ≤ B ^ (max w.length (2 * vp.length) - vp.length) :=
+              Nat.pow_le_pow_right B_pos (by omega)
+            omega
+          · rw [hwl', hul']
+            have m3 : up.length - vp.length + vp.length = up.length := by omega
+            rw [m3]
+            exact hfit'
+        obtain ⟨res, f1, f2, f3, f4⟩ := slideLoop_exact kt N hkt mulN hmul fuel _ _ _ _ _ hdone' inv' (by omega)
+        refine ⟨res, f1, hvalue _ ?_, f3, ?_⟩
+        · rw [f2, hwl']
+        · rw [f4, List.length_append, hlo, hul']; omega
+    · rw [if_neg c1]
+      by_cases c3 : vp.length ≠ 0
+      · rw [if_pos c3]
+        obtain ⟨pv, pL, pn⟩ := mul_basecase_val up vp hu hv (by omega)
+        obtain ⟨av, an, aL⟩ := accum_spec w (mul_basecase up vp) t hw pL (by omega)
+        rw [pn] at an
+        generalize accum w (mul_basecase up vp) t = r at *
+        have m : max w.length (up.length + vp.length) = up.length + vp.length := by omega
+        rw [an, m, pv] at av
+        have hr0 : r.2 = 0 := by
+          by_contra hne
+          have : 1 ≤ r.2 := by omega
+          nlinarith [Bpow_pos (up.length + vp.length)]
+        rw [hr0] at av
+        refine ⟨done ++ r.1, rfl, ?_, Limbs_append.mpr ⟨hd, aL⟩, by rw [List.length_append, an]; omega⟩
+        rw [val_append]
+        linear_combination (B ^ done.length) * av
+      · rw [if_neg c3]
+        have hv0 : vp.length = 0 := by omega
+        have hvnil : vp = [] := List.eq_nil_of_length_eq_zero hv0
+        have hl := zl hv0
+        rw [hvnil] at fits ⊢
+        simp only [val_nil, Nat.mul_zero, Nat.add_zero, List.length_nil] at fits ⊢
+        rw [← hl] at fits
+        have ht0 : t = 0 := by
+          by_contra hne
+          have : 1 ≤ t := by omega
+          nlinarith [Bpow_pos w.length]
+        refine ⟨done ++ w, rfl, ?_, Limbs_append.mpr ⟨hd, hw⟩, by rw [List.length_append]; omega⟩
+        rw [val_append, ht0]; ring
+
+theorem val_mul_lt (u v : List Nat) (hu : Limbs u) (hv : Limbs v) : val u * val v < B ^ (u.length + v.length) := by
+  rw [pow_add]
+  exact Nat.mul_lt_mul'' (val_lt u hu) (val_lt v hv)
+
+theorem mulSlide_exact (kt : Nat) (hkt : 1 ≤ kt) (mulN : List Nat → List Nat → Option (List Nat))
+    (u v : List Nat) (hu : Limbs u) (hv : Limbs v) (hvk : kt ≤ v.length) (huv : v.length < u.length)
+    (hmul : MulNExact kt v.length mulN) :
+    ∃ r, mulSlide kt mulN u v = some r ∧ val r = val u * val v ∧ Limbs r ∧ r.length = u.length + v.length := by
+  have hvn1 : 1 ≤ v.length := by omega
+  have htl : (u.take v.length).length = v.length := by simp; omega
+  obtain ⟨p, e1, e2, e3, e4⟩ := hmul (u.take v.length) v (Limbs_take hu _) hv htl (by omega) (by omega)
+  rw [htl] at e4
+  have hsplitP := val_take_drop p v.length (by omega)
+  have hsplitU := val_take_drop u v.length (by omega)
+  have hlo : (p.take v.length).length = v.length := by simp; omega
+  have hwl : (p.drop v.length).length = v.length := by simp; omega
+  have hul : (u.drop v.length).length = u.length - v.length := by simp
+  have hpowu : B ^ (u.length + v.length) = B ^ v.length * B ^ u.length := by
+    rw [← pow_add]; congr 1; omega
+  have hw := val_lt _ (Limbs_drop e3 v.length)
+  rw [hwl] at hw
+  -- what remains after the first product fits the remaining un limbs
+  have hfit : val (p.drop v.length) + val (u.drop v.length) * val v < B ^ u.length := by
+    have h1 := val_mul_lt u v hu hv
+    rw [hpowu, hsplitU] at h1
+    apply Nat.lt_of_mul_lt_mul_left (a := B ^ v.length)
+    have : val (p.take v.length) + B ^ v.length * val (p.drop v.length) = val (u.take v.length) * val v := by
+      rw [← hsplitP, e2]
+    nlinarith
+  have hvalue : ∀ res : Nat,
+      res = val (p.take v.length) + B ^ (p.take v.length).length *
+        (val (p.drop v.length) + B ^ (p.drop v.length).length * 0 + val (u.drop v.length) * val v) →
+      res = val u * val v := by
+    intro res hres
+    rw [hres, hlo, hsplitU]
+    have : val (p.take v.length) + B ^ v.length * val (p.drop v.length) = val (u.take v.length) * val v := by
+      rw [← hsplitP, e2]
+    linear_combination this
+  unfold mulSlide
+  simp only []
+  rw [if_neg (by omega)]
+  simp only [e1]
+  by_cases c2 : (u.drop v.length).length < v.length
+  · rw [if_pos c2]
+    rw [hul] at c2
+    have inv : SlideInv v.length (p.drop v.length) 0 v (u.drop v.length) := by
+      refine ⟨Limbs_drop e3 _, hv, Limbs_drop hu _, by omega, by omega, by omega, by omega, ?_, ?_⟩
+      · rw [hwl]; have := Bpow_pos (u.drop v.length).length; omega
+      · rw [hwl, hul]
+        have m3 : v.length + (u.length - v.length) = u.length := by omega
+        rw [m3, Nat.mul_comm (val v)]
+        simpa using hfit
+    obtain ⟨res, f1, f2, f3, f4⟩ := slideLoop_exact kt v.length hkt mulN hmul (u.length + 1) _ _ _ _ _
+      (Limbs_take e3 v.length) inv (by omega)
+    refine ⟨res, f1, hvalue _ ?_, f3, ?_⟩
+    · rw [f2, Nat.mul_comm (val v)]
+    · rw [f4, hlo, hul]; omega
+  · rw [if_neg c2]
+    rw [hul] at c2
+    have inv : SlideInv v.length (p.drop v.length) 0 (u.drop v.length) v := by
+      refine ⟨Limbs_drop e3 _, Limbs_drop hu _, hv, by omega, by omega, by omega, by omega, ?_, ?_⟩
+      · rw [hwl]; have := Bpow_pos v.length; omega
+      · rw [hwl, hul]
+        have m3 : u.length - v.length + v.length = u.length := by omega
+        rw [m3]
+        simpa using hfit
+    obtain ⟨res, f1, f2, f3, f4⟩ := slideLoop_exact kt v.length hkt mulN hmul (u.length + 1) _ _ _ _ _
+      (Limbs_take e3 v.length) inv (by omega)
+    refine ⟨res, f1, hvalue _ f2, f3, ?_⟩
+    rw [f4, hlo, hul]; omega
+
 end Mpir.MulLoops
